@@ -123,6 +123,11 @@ class Pristine:
     def ask(self, pre, ph, src):
         self.p.stdin.write(json.dumps({"pre": pre, "ph": ph, "src": src}) + "\n")
         self.p.stdin.flush()
+        import select
+        ready, _, _ = select.select([self.p.stdout], [], [], 180)
+        if not ready:
+            self.p.kill()
+            raise MachineryError(f"the pristine evaluation process did not answer within 180 s for `{src}`")
         line = self.p.stdout.readline()
         if not line:
             raise MachineryError("the pristine evaluation process ended")
